@@ -11,6 +11,7 @@ import (
 	"strconv"
 	"strings"
 	"sync"
+	"sync/atomic"
 	"time"
 
 	dtpb "github.com/google/fhir/go/proto/google/fhir/proto/r4/core/datatypes_go_proto"
@@ -523,7 +524,15 @@ type cacheEntry struct {
 	st  string
 }
 
-var compileCache sync.Map
+// compileCache: default-option compilations by source text.  Bounded: a thorough run
+// compiles millions of distinct sources, and an unbounded cache is a memory leak of the
+// harness itself.
+var (
+	compileCache     sync.Map
+	compileCacheSize atomic.Int64
+)
+
+const compileCacheMax = 20000
 
 // compileGuarded compiles src under recover(); default options only are cached.
 func compileGuarded(src string, opts ...fhirpath.CompileOption) (e *fhirpath.Expression, err error, pan, stack string) {
@@ -535,6 +544,10 @@ func compileGuarded(src string, opts ...fhirpath.CompileOption) (e *fhirpath.Exp
 	}
 	o := guard(func() { e, err = fhirpath.Compile(src, opts...) })
 	if len(opts) == 0 {
+		if compileCacheSize.Add(1) > compileCacheMax {
+			compileCache.Range(func(k, _ any) bool { compileCache.Delete(k); return true })
+			compileCacheSize.Store(1)
+		}
 		compileCache.Store(src, cacheEntry{e, err, o.Panic, o.Stack})
 	}
 	return e, err, o.Panic, o.Stack
